@@ -1063,6 +1063,9 @@ def fifo_stream(
             x, fut = z
 
             try:
+                if fut.exception() is not None:
+                    # `Future.result` tests the exception by its truth value.
+                    raise fut.exception()
                 y = fut.result()
             except Exception as e:
                 if return_exceptions:
